@@ -253,9 +253,10 @@ Definition invert_file (cfg : invert_cfg) (e : expr) : expr :=
   if bu_any (invert_step cfg) (invert_raises cfg) e then e else rw_invert cfg e.
 
 (** * use_generator.py
-    [leave_Call] decides on the ORIGINAL node, builds the generator from the original [elt]/[for_in], and ends with
-    `return original_node`: every call that is not itself rewritten comes back unvisited, so rewrites nested inside
-    the arguments of any call are discarded. *)
+    [leave_Call] decides on the ORIGINAL node.  Pinned / first repair: the generator is built from the original
+    [elt]/[for_in] and the method ends with `return original_node`, so every call that is not itself rewritten comes back
+    unvisited and rewrites nested inside the arguments of any call are discarded.  [ug_nested]: `return updated_node`
+    keeps them.  [ug_updated_parts]: the comprehension is taken from the updated node, so rewrites inside it are kept. *)
 Definition gen_func (f : builtin) : bool :=
   match f with BAny | BAll | BSum | BMin | BMax => true | _ => false end.
 Definition gen_call (cfg : generator_cfg) (f : builtin) (args : list expr) : expr :=
@@ -265,6 +266,12 @@ Definition gen_call (cfg : generator_cfg) (f : builtin) (args : list expr) : exp
       then ECall f [EGen false elt x it] else ECall f args
   | _ => ECall f args
   end.
+(** the call is one the codemod rewrites *)
+Definition gen_hit (cfg : generator_cfg) (f : builtin) (args : list expr) : bool :=
+  match args with
+  | EListComp _ _ _ :: rest => gen_func f && (negb (ug_single_arg cfg) || match rest with [] => true | _ => false end)
+  | _ => false
+  end.
 Fixpoint rw_generator (cfg : generator_cfg) (e : expr) : expr :=
   let rw := rw_generator cfg in
   match e with
@@ -272,8 +279,10 @@ Fixpoint rw_generator (cfg : generator_cfg) (e : expr) : expr :=
   | ETuple es => ETuple (map rw es)
   | EList es => EList (map rw es)
   | ESet es => ESet (map rw es)
-  | EMeth _ _ _ => e                                   (* a Call: `return original_node` *)
-  | ECall f args => gen_call cfg f args
+  | EMeth r m args => if ug_nested cfg then EMeth r m (map rw args) else e      (* a Call that is never rewritten itself *)
+  | ECall f args =>
+      if gen_hit cfg f args then (if ug_updated_parts cfg then gen_call cfg f (map rw args) else gen_call cfg f args)
+      else if ug_nested cfg then ECall f (map rw args) else e
   | EBool p o l r => EBool p o (rw l) (rw r)
   | ENot p a => ENot p (rw a)
   | ECmp p l rest => ECmp p (rw l) (map (fun cb => (fst cb, rw (snd cb))) rest)
